@@ -356,8 +356,13 @@ def direct(rng, tier, focus=()):
 
     # routed requests: the same remote client reached through router A, then B, then A again
     rp = pool[0][1]
-    for _ in range(300 if tier == 'thorough' else 60):
+    from bacpypes.settings import settings as _settings
+    _route_aware_before = _settings.route_aware
+    for _ in range(300 if tier == 'thorough' else 80):
         n += 1
+        # a configuration the library's own tests never vary: route-aware addressing (the source shown to the
+        # application then carries the router, and replies take the route-aware branch of the network layer)
+        _settings.route_aware = (_ % 2 == 1)
         w = C.Device()
         snet, sadr = rng.choice([5, 6, 700]), bytes([rng.randrange(1, 255)])
         order = [rng.choice([w.raw, w.raw2]) for _ in range(rng.randrange(2, 6))]
@@ -382,12 +387,13 @@ def direct(rng, tier, focus=()):
                         mine.append(r)
             got = canon_reply_frames(mine, inv)
             if got != [[3, 0, 0]]:
-                failures.append({'kind': 'routed-request-not-answered', 'snet': snet, 'sadr': sadr.hex(),
+                failures.append({'kind': 'routed-request-not-answered', 'route_aware': _settings.route_aware, 'snet': snet, 'sadr': sadr.hex(),
                                  'routers': [str(x.address) for x in order], 'invoke': inv, 'replies_at_delivering_router': got,
                                  'replies_anywhere': canon_reply_frames(w.replies(both=True), inv)})
                 break
             inv += 1
-        nontriv.add(('routed', snet, sadr, tuple(str(x.address) for x in order)))
+        nontriv.add(('routed', snet, sadr, tuple(str(x.address) for x in order), _settings.route_aware))
+    _settings.route_aware = _route_aware_before
     # segmented responses toward a client that acknowledges badly or falls silent: no transaction or timer
     # may survive, and the same invoke ID must be usable afterwards
     from bacpypes.apdu import ReadPropertyMultipleRequest, ReadAccessSpecification, PropertyReference
